@@ -29,6 +29,14 @@ var vxSweptClasses = []vxSwept{
 	{"initUInt8", func() *value.Class { return value.UInt8Class }, "headers/uint8.elh", "UInt8"},
 	{"initInt64", func() *value.Class { return value.Int64Class }, "headers/int64.elh", "Int64"},
 	{"initUInt", func() *value.Class { return value.UIntClass }, "headers/uint.elh", "UInt"},
+	{"initInt16", func() *value.Class { return value.Int16Class }, "headers/int16.elh", "Int16"},
+	{"initInt32", func() *value.Class { return value.Int32Class }, "headers/int32.elh", "Int32"},
+	{"initUInt16", func() *value.Class { return value.UInt16Class }, "headers/uint16.elh", "UInt16"},
+	{"initUInt32", func() *value.Class { return value.UInt32Class }, "headers/uint32.elh", "UInt32"},
+	{"initUInt64", func() *value.Class { return value.UInt64Class }, "headers/uint64.elh", "UInt64"},
+	{"initFloat64", func() *value.Class { return value.Float64Class }, "headers/float64.elh", "Float64"},
+	{"initFloat32", func() *value.Class { return value.Float32Class }, "headers/float32.elh", "Float32"},
+	{"initChar", func() *value.Class { return value.CharClass }, "headers/char.elh", "Char"},
 }
 
 type vxSig struct {
@@ -127,6 +135,14 @@ func vxValueOfType(t, name string) (value.Value, bool) {
 		return value.UInt(vxUint64(name)).ToValue(), true
 	case "Bool":
 		return value.BoolVal(vxBool(name)), true
+	case "Float64":
+		return value.Float64(vxFloat64(name)).ToValue(), true
+	case "Float32":
+		return value.Float32(vxFloat32(name)).ToValue(), true
+	case "Char":
+		c := vxInt32(name)
+		vxAssume(c >= 0 && c <= 0x10FFFF && !(c >= 0xD800 && c <= 0xDFFF))
+		return value.Char(c).ToValue(), true
 	case "CoercibleNumeric":
 		// BigFloat operands are outside the sweep
 		if vxSplit(name+".num", 2) == 0 {
@@ -198,6 +214,8 @@ func vxIsInstance(v value.Value, t string) (is bool, known bool) {
 		return v.IsInlineFloat64(), true
 	case "Float32":
 		return v.ValueFlag() == value.FLOAT32_FLAG, true
+	case "Char":
+		return v.IsChar(), true
 	case "String":
 		if v.IsReference() {
 			_, ok := v.AsReference().(value.String)
